@@ -8,7 +8,6 @@ import (
 	"github.com/gregoryv/mq"
 	"pgregory.net/rapid"
 
-	"verif/harness/api"
 	"verif/harness/guard"
 	"verif/harness/model"
 	"verif/harness/ref"
@@ -21,27 +20,31 @@ import (
 // Oracle: differential against the independent strict decoder: it must accept
 // the frame and read back exactly the model (absent property = zero value).
 
-func checkC02(m model.Packet, plan []api.Step) (frame []byte, sig, msg string) {
+func checkC02(c caseC01) (m model.Packet, frame []byte, sig, msg string) {
 	var built mq.ControlPacket
-	if pan := guard.Call(func() { built = api.Build(&m, plan) }); pan != nil {
-		return nil, "build-panic", fmt.Sprintf("panic while building through the API: %v\n%s", pan.Value, pan.Stack)
+	var berr error
+	if pan := guard.Call(func() { built, m, berr = c.build() }); pan != nil {
+		return m, nil, "build-panic", fmt.Sprintf("panic while building through the API: %v\n%s", pan.Value, pan.Stack)
+	}
+	if berr != nil {
+		return m, nil, "harness", "harness: " + berr.Error()
 	}
 	frame, _, err, pan := write(built)
 	if pan != nil {
-		return nil, "write-panic", fmt.Sprintf("WriteTo panicked: %v\n%s", pan.Value, pan.Stack)
+		return m, nil, "write-panic", fmt.Sprintf("WriteTo panicked: %v\n%s", pan.Value, pan.Stack)
 	}
 	if err != nil {
-		return nil, "write-error", fmt.Sprintf("WriteTo failed: %v", err)
+		return m, nil, "write-error", fmt.Sprintf("WriteTo failed: %v", err)
 	}
 	got, err := ref.DecodeStrict(frame)
 	if err != nil {
-		return frame, "strict-reject:" + typeName(m.Type), fmt.Sprintf("the strict reference decoder rejects the emitted frame %s: %v", hx(frame), err)
+		return m, frame, "strict-reject:" + typeName(m.Type), fmt.Sprintf("the strict reference decoder rejects the emitted frame %s: %v", hx(frame), err)
 	}
 	want := expectAfterWire(m)
 	if d := model.Diff(got, want); d != "" {
-		return frame, "strict-field:" + fieldOf(d), fmt.Sprintf("the specification reads other values from the emitted frame than were set (frame vs set) %s\nframe %s", d, hx(frame))
+		return m, frame, "strict-field:" + fieldOf(d), fmt.Sprintf("the specification reads other values from the emitted frame than were set (frame vs set) %s\nframe %s", d, hx(frame))
 	}
-	return frame, "", ""
+	return m, frame, "", ""
 }
 
 // frameFeatures inspects a valid frame with the reference decoder's framing:
@@ -70,11 +73,7 @@ func TestC02(t *testing.T) {
 		if err := json.Unmarshal(rf.Case, &c); err != nil {
 			t.Fatalf("replay %s: %v", rf.Source, err)
 		}
-		m, err := unpackModel(c.ModelGob)
-		if err != nil {
-			t.Fatalf("replay %s: %v", rf.Source, err)
-		}
-		frame, _, msg := checkC02(m, c.Plan)
+		m, frame, _, msg := checkC02(c)
 		r.Case(vf.FPs("replay", c.ModelGob), c02Nontrivial(&m, frame), "replay/"+typeName(m.Type), func() interface{} { return c.Model })
 		if msg != "" {
 			r.FailReplay(rf, "%s", msg)
@@ -96,14 +95,14 @@ func TestC02(t *testing.T) {
 			if !m.WellFormedMQTT() {
 				t.Fatalf("generator produced a packet outside the C02 domain: %s", m.String())
 			}
-			plan := drawPlan(t, &m)
-			frame, sig, msg := checkC02(m, plan)
+			c := drawBuildCase(t, &m, typ)
+			_, frame, sig, msg := checkC02(c)
 			nt := c02Nontrivial(&m, frame)
 			r.Case(vf.FP(frame), nt, typeName(typ)+"/"+sizeClass(frame), func() interface{} {
 				return map[string]interface{}{"model": m.String(), "frame": hx(frame)}
 			})
 			if msg != "" {
-				r.Fail("conformance", mkCaseC01(m, plan), sig, "%s\nmodel: %s", msg, m.String())
+				r.Fail("conformance", c, sig, "%s\nmodel: %s", msg, m.String())
 				t.Fatalf("%s", msg)
 			}
 		})
